@@ -159,6 +159,6 @@ def strat():
 def subchecks():
     return [
         SubCheck(name="selection_and_preservation", mode="given", strategy=strat, run_case=run_case,
-                 counts={"quick": 96, "thorough": 1600}, shards={"quick": 8, "thorough": 16}, clear_every=5,
+                 counts={"quick": 96, "thorough": 4800}, shards={"quick": 8, "thorough": 16}, clear_every=5,
                  min_nontrivial_frac=0.25, doc="per-step top-k selection, written points, active slots preserved"),
     ]
